@@ -7,7 +7,7 @@ from sa import q as Q
 from sa.cfg import cfg_of
 from sa.dataflow import roots, root_vars, rdefs
 from sa.pathsim import PathSim, C
-from sa.q import strip_sv, sv_mentions, path_end, path_calls, cond_atoms
+from sa.q import strip_sv, sv_mentions, path_end, path_calls, cond_atoms, sv_field_path, noepoch
 
 PROPERTY = "C17"
 LEVEL = "other"
@@ -139,50 +139,57 @@ r17_1.rule_id = "R17.1"
 
 
 def r17_2(ctx):
-    """relocate(): remove -> exactly one re-insertion"""
+    """relocate(): the victim is conserved on every path - each probe-set remove is matched by exactly one re-insertion and nothing is
+    inserted that was not removed (net change 0 at every return and at every continuation of the outer retry loop)"""
     fs = ctx.need("cds::intrusive::CuckooSet::relocate")
     for F in fs:
         cfg = cfg_of(F)
         rem = Q.calls_in(F, r"::remove$")
-        if len(rem) != 1:
-            ctx.broken("relocate(): expected one probe-set remove, found %d" % len(rem))
-        rb = rem[0]["_site"][0]
+        if not rem:
+            ctx.broken("relocate(): no probe-set remove found")
+        loops = cfg.loops()
+        inner = set(h for h in loops if any(h in body and h != g for g, body in loops.items()))
         ps = PathSim(F, bound=8192).run()
         ctx.paths += len(ps)
         for p in ps:
             ev = p.events
-            ri = [i for i, e in enumerate(ev) if e.kind == "call" and e.node is rem[0]]
-            if not ri:
+            rs = [e for e in ev if e.kind == "call" and any(e.node is r for r in rem)]
+            ins = [e for e in ev if e.kind == "call" and e.q and e.q.endswith("::insert_after")]
+            if not rs and not ins:
                 continue
-            after = ev[ri[0] + 1:]
-            # the removed element: first element of the probe set, captured in pVal before the remove
-            ins = [e for e in after if e.kind == "call" and e.q and e.q.endswith("::insert_after")]
             end = path_end(p)
-            inner = end[0] == "back" and cfg.block_dominates(rb, end[1]) and end[1] != rb
-            if inner:
-                if ins:
+            net = len(ins) - len(rs)
+            at = (ins or rs)[0].node
+            if end[0] == "back" and end[1] in inner:
+                # still searching for a place inside a placement loop: the victim may be out of its probe set, but not placed yet
+                if ins and rs and ev.index(ins[-1]) > ev.index(rs[0]):
                     ctx.bad("R17.2", F, "relocate(): after re-inserting the removed element the placement loop continues", ins[0].node,
                             detail=R, sig="relocate:insert-then-continue")
+                elif net > 0:
+                    ctx.bad("R17.2", F, "relocate(): an element is inserted into a probe set without having been removed from its own", ins[0].node,
+                            detail="path: %s. %s" % (_branch_sig(F, p), R), sig="relocate:net+%d" % net)
                 continue
-            if len(ins) == 1:
-                ctx.ok("R17.2", F, "relocate(): the removed element is re-inserted exactly once on this path", ins[0].node, sig="relocate-ok")
+            if net == 0 and len(rs) == 1:
+                ctx.ok("R17.2", F, "relocate(): the removed element is re-inserted exactly once on this path", at, sig="relocate-ok")
+            elif net > 0 or len(rs) == 0:
+                ctx.bad("R17.2", F, "relocate(): an element is inserted into a probe set %d time(s) more often than it was removed on a path" % net, ins[0].node,
+                        detail="path ends with %s; branches: %s. The victim ends up linked twice (a vector probe set stores it twice / overruns, a list probe set gets a "
+                        "cycle). %s" % (end[0], _branch_sig(F, p), R), sig="relocate:net+%d:%s" % (net, ",".join(_branch_sig(F, p))))
             else:
-                last = F.blocks[p.blocks[-1]].term or None
-                ctx.bad("R17.2", F, "relocate(): the element removed from its probe set is re-inserted %d times on a path" % len(ins),
-                        rem[0], detail="path ends with %s; branches: %s. %s" % (end[0], _branch_sig(F, p), R),
+                ctx.bad("R17.2", F, "relocate(): the element removed from its probe set is re-inserted %d times on a path (%d remove(s))" % (len(ins), len(rs)),
+                        rs[0].node, detail="path ends with %s; branches: %s. %s" % (end[0], _branch_sig(F, p), R),
                         sig="relocate:%d-inserts:%s" % (len(ins), ",".join(_branch_sig(F, p))))
         # the inserted node is the removed one: every insert_after in relocate passes to_node_ptr(pVal)
         for i in Q.calls_in(F, r"::insert_after$"):
             a = i.get("args", [])
-            ok = len(a) == 2 and any(x.get("k") == "ref" and x.get("n") == "pVal" for x in F.walk(a[1]))
             pv = [x for x in F.walk(a[1]) if x.get("k") == "ref" and x.get("dk") == "local"] if len(a) == 2 else []
             ok = bool(pv)
             if pv:
-                # that local is assigned from the probe set's first element before the remove
+                # that local is assigned from the probe set's first element before any remove / this insertion
                 d = rdefs(F).all_defs(pv[0]["d"])
                 ok = any(dd.kind in ("init", "assign") and dd.rhs is not None and
                          any(x.get("k") == "call" and x.get("q", "").endswith("::begin") for x in F.walk(dd.rhs)) and
-                         cfg.site_dominates(dd.site, rem[0]["_site"]) for dd in d)
+                         all(cfg.site_dominates(dd.site, r["_site"]) for r in rem) and cfg.site_dominates(dd.site, i["_site"]) for dd in d)
             ctx.check(ok, "R17.2", F, "relocate(): the node re-inserted is the one taken from the probe set before the remove", i, sig="relocate-node")
 r17_2.rule_id = "R17.2"
 
@@ -344,7 +351,12 @@ def r17_5(ctx):
                 if fill_idx is None:
                     continue       # default-constructed / begin position: nothing to invalidate
                 n += 1
-                muts = [m for m in ev[fill_idx + 1:i] if m.kind == "call" and m.q and MUT.search(m.q)]
+                # a whole-table operation invalidates every position; a probe-set operation only positions of that same probe set
+                def same_set(m):
+                    if re.search(r"::(relocate|resize|clear|clear_and_dispose)$", m.q) and (m.obj is None or strip_sv(m.obj) == ("this",) and not sv_field_path(m.obj)):
+                        return True
+                    return m.obj is None or e.obj is None or noepoch(m.obj) == noepoch(e.obj)
+                muts = [m for m in ev[fill_idx + 1:i] if m.kind == "call" and m.q and MUT.search(m.q) and same_set(m)]
                 ctx.check(not muts, "R17.5", F, "the insert position computed by %s() is used before any probe set is modified"
                           % ev[fill_idx].q.split("::")[-1], e.node,
                           detail="between the position lookup and insert_after the path calls %s: the position may be stale, the element "
